@@ -27,6 +27,8 @@ Mk(tpl, t, k) ==
     [] tpl = "D"   -> E(11, "UDATA", 0, [frames |-> <<0, 1, 2, 3>>], 37, 9474)
     [] tpl = "IMG" -> E(12, "MAPA", 0, [rank |-> 1, id |-> 1], 31, 7941)
     [] tpl = "IMG2" -> E(12, "MAPA", 0, [rank |-> 0, id |-> 2], 31, 7941)
+    [] tpl = "TERMo" -> E(7, "TERM", 0, [ttid |-> o], 7, 1792)                   \* a record ABOUT the other thread: reads its name
+    [] tpl = "TN"  -> E(13, "TNAME", 3, [data |-> Data(<<84, 48 + t>>)], 7, 1794) \* the thread names itself
 
 DumpOf(shape, tm) == [tmap |-> tm, evs |-> [i \in 1..Len(shape) |-> Mk(shape[i][1], shape[i][2], i)], logs |-> <<>>]
 TM1 == <<[tid |-> 1, pid |-> 5, name |-> "p"]>>
@@ -42,8 +44,13 @@ DumpsImg == << DumpOf(<< <<"IMG2", 1>>, <<"PS", 1>>, <<"H2", 1>>, <<"D", 1>>, <<
 L(i, t, p, n) == [i |-> i, tid |-> t, pid |-> p, proc |-> n]
 DumpsLogs == << [DumpOf(<< <<"B2", 1>>, <<"B3", 2>> >>, TM1) EXCEPT !.logs = <<L(1, 2, 6, "s"), L(2, 0, 5, "p"), L(3, 1, 5, "")>>],
                 [DumpOf(<< <<"B3", 2>> >>, TM2) EXCEPT !.logs = <<L(1, 1, 9, "z"), L(2, 2, 5, "r")>>] >>
+\* use BEFORE definition: thread 1 records the end of thread 2 before thread 2 has named itself (read once, the record shows no
+\* name); dump 2 names thread 2 first
+DumpsNames == << DumpOf(<< <<"TERMo", 1>>, <<"TN", 2>>, <<"B3", 2>> >>, TM1),
+                 DumpOf(<< <<"TN", 2>>, <<"TERMo", 1>> >>, TM2) >>
 CONSTANT DumpSet
-Dumps == IF DumpSet = "learn" THEN DumpsLearn ELSE IF DumpSet = "logs" THEN DumpsLogs ELSE DumpsImg
+Dumps == IF DumpSet = "learn" THEN DumpsLearn ELSE IF DumpSet = "logs" THEN DumpsLogs
+         ELSE IF DumpSet = "names" THEN DumpsNames ELSE DumpsImg
 
 Tables == [A |-> {2, 3, 4, 5, 6, 8}, B |-> {2, 8, 9}]
 CodesFor(kind) == IF kind = "fkev" THEN {"A", "B"} ELSE IF kind \in {"kev", "logs"} THEN {"-"} ELSE {"W"}
@@ -99,6 +106,9 @@ NeverCleanFinishedWithItems ==
   ~ \E i \in 1..Len(gens) : gens[i].clean /\ gens[i].done /\ Len(gens[i].out) >= 2 /\ Len(gens) >= 2
 NeverDisturbedWithItems ==
   ~ \E i \in 1..Len(gens) : ~gens[i].clean /\ ~gens[i].dirty /\ Len(gens[i].out) >= 2
+NeverNamedThread ==      \* some clean listing does show a thread name in a record about another thread
+  ~ \E i \in 1..Len(gens) : gens[i].clean /\ gens[i].kind = "tr" /\
+        \E j \in 1..Len(gens[i].out) : "ttid" \in DOMAIN gens[i].out[j].f /\ gens[i].out[j].f.name # NoText
 NeverKnownProcess ==
   ~ \E i \in 1..Len(gens) : gens[i].clean /\ \E j \in 1..Len(gens[i].out) : "proc" \in DOMAIN gens[i].out[j] /\ gens[i].out[j].proc.known
 =============================================================================
